@@ -277,6 +277,29 @@ func richSubs(r *rng, o richOpts) *astisub.Subtitles {
 		regions = append(regions, rg)
 		s.Regions[rg.ID] = rg
 	}
+	if o.hostile {
+		// the maps are public: keys that differ from the element's identifier, nil elements
+		if len(s.Styles) > 0 && r.chance(1, 4) {
+			for k, v := range s.Styles {
+				delete(s.Styles, k)
+				s.Styles["key-"+k] = v
+				break
+			}
+		}
+		if len(s.Regions) > 0 && r.chance(1, 4) {
+			for k, v := range s.Regions {
+				delete(s.Regions, k)
+				s.Regions["key-"+k] = v
+				break
+			}
+		}
+		if s.Styles != nil && r.chance(1, 6) {
+			s.Styles["nil-style"] = nil
+		}
+		if s.Regions != nil && r.chance(1, 6) {
+			s.Regions["nil-region"] = nil
+		}
+	}
 	ni := 1 + r.intn(o.maxItems)
 	if !o.safe && r.chance(1, 10) {
 		ni = 0
